@@ -171,6 +171,53 @@ class Analyzer:
             if self.summaries[f.key].ret_fresh:
                 self.fresh_fns[f.name] = self.summaries[f.key].ret_exact
 
+    def init_of(self, fkey):
+        """definitely-initialised byte ranges of pointer parameters at the exits of a function (E5 summary):
+        {class: {param index: ((lo, hi), ...)}} with constant ends; monotone (stores never un-initialise)."""
+        if not hasattr(self, "_init"):
+            self._init = {}
+        if fkey in self._init:
+            return self._init[fkey]
+        self._init[fkey] = {}
+        from .initflow import InitFlow, lf_is_const
+        f = self.prog.funcs[fkey]
+        res = {}
+        try:
+            fl = InitFlow(f, self, track_args=True)
+        except Exception:
+            return {}
+        summ = self.summaries.get(fkey)
+        by_src = {}
+        if summ is not None:
+            for (c2, _st, _site, src2) in summ.exit_states:
+                by_src.setdefault(src2, set()).add(c2)
+        flat = []
+        for (cls, st, src) in fl.exits:
+            classes = by_src.get(src) or {cls}
+            for c2 in classes:
+                flat.append((c2, st, src))
+        for (cls, st, src) in flat:
+            cur = {}
+            for obj, ranges in st.items():
+                if obj[0][0] == "arg" and obj[1] == ():
+                    cur[obj[0][1]] = tuple((a[0], b[0]) for (a, b) in ranges if lf_is_const(a) and lf_is_const(b))
+            if cls not in res:
+                res[cls] = cur
+            else:
+                merged = {}
+                for k in set(res[cls]) & set(cur):
+                    out = []
+                    for (a, b) in res[cls][k]:
+                        for (c, d) in cur[k]:
+                            lo, hi = max(a, c), min(b, d)
+                            if lo < hi:
+                                out.append((lo, hi))
+                    if out:
+                        merged[k] = tuple(out)
+                res[cls] = merged
+        self._init[fkey] = res
+        return res
+
     def callee_keys(self, f):
         keys = set()
         for i in f.all_insts():
